@@ -9,7 +9,7 @@
     native text, from the first re-parse on for foreign spellings) - partial in that sense. *)
 From V Require Import base.Prelude base.Strs gen.Tables model.Cfg model.Names model.Wildcard model.Ports model.Addr model.Ace
   model.Lex model.AddrText model.AceText model.AclText
-  proofs.NamesProofs proofs.PortsProofs proofs.TextProofs proofs.SplitterProofs proofs.AceFixProofs proofs.AddrObjProofs proofs.ParsedAceProofs proofs.GroupAceProofs proofs.AclFixProofs.
+  proofs.NamesProofs proofs.PortsProofs proofs.TextProofs proofs.SplitterProofs proofs.AceFixProofs proofs.AddrObjProofs proofs.ParsedAceProofs proofs.GroupAceProofs proofs.AclFixProofs proofs.ClassCheck.
 Local Open Scope N_scope.
 
 Theorem C06_port_partial : forall pr pl v15 nr o xs p,
@@ -136,6 +136,14 @@ Theorem C06_acl_body : forall c, (plat c = Ios \/ plat c = Nxos) ->
   let cl := classify_all c (map (render_item c) items) in
   cl = map LItem items /\ aborted cl = false /\ items_of cl = items.
 Proof. exact acl_body_built_fixpoint. Qed.
+
+
+(** the checked form: [src_builtb] is a sound boolean checker of the class of [C06_parsed_ace_groups]
+    (proofs/ClassCheck.v); the check counts with it, inside Coq, how many explored lines produce an
+    entry that is provably a fixed point ([run.RunClass.ace_in_class]) *)
+Theorem C06_checked : forall c t, plat_okb (plat c) = true -> src_builtb c t = true ->
+  parse_ace_text c (render_ace c t) = Ok t.
+Proof. exact fixpoint_checked. Qed.
 
 Theorem C06_port_tokens : forall nr c p, Forall token (render_port nr c p) /\ Forall af (render_port nr c p).
 Proof. exact render_port_toks. Qed.
